@@ -38,11 +38,11 @@ FLOORS = {'*': {'op:add': 300, 'op:add_named': 200, 'op:add_methods_fn': 100, 'o
                 'op:merge': 300, 'op:attach': 500, 'op:dadd': 100, 'op:dview': 50, 'three-level-merge': 20,
                 're-registration': 100, 'probe:registered-name': 2000, 'probe:near-miss': 5000, 'probe:private-member': 1000,
                 'dispatcher:sync': 300, 'dispatcher:async': 300, 'view:static-member': 100, 'view:inherited-member': 100,
-                'same-prefix-merge': 20}}
+                'same-prefix-merge': 20, 'view:derived-view': 50, 'probe:underscore-name': 100}}
 
 PREFIXES = [None, 'a', 'a.b']
-FN_NAMES = ['alpha', 'beta', 'alpha']          # fn 0 and fn 2 collide on purpose
-EXPLICIT = ['alpha', 'x.y', 'a']
+FN_NAMES = ['alpha', 'beta', 'alpha', '_gamma']          # fn 0 and fn 2 collide on purpose; an own name may start with '_'
+EXPLICIT = ['alpha', 'x.y', 'a', '_x', 'ns._y']
 
 
 def make_fn(token, name, is_async):
@@ -106,21 +106,27 @@ def make_views(is_async):
 
     class V1(pjrpc.server.ViewMixin, Mix1):
         def pm(self):
-            return 'V1.pm'
+            return type(self).__name__ + '.pm'
 
         def _hidden(self):
             return 'V1._hidden'
 
     if is_async:
         async def apm(self):
-            return 'V1.pm'
+            return type(self).__name__ + '.pm'
         apm.__name__ = 'pm'
         V1.pm = apm
-    return [V0, V1]
+
+    class V2(V1):
+        # a derived view registered later under the same names: it replaces the base view also for what it inherits unchanged
+        def helper(self):
+            return 'V2.helper'
+    return [V0, V1, V2]
 
 
 VIEW_PUBLIC = [{'pm': 'V0.pm', 'alpha': 'V0.alpha', 'st': 'V0.st', 'cm': 'V0.cm', 'inherited': 'view:inherited', 'mixed': 'mix0:mixed'},
-               {'pm': 'V1.pm', 'helper': 'mix1:helper', 'shelper': 'mix1:shelper'}]
+               {'pm': 'V1.pm', 'helper': 'mix1:helper', 'shelper': 'mix1:shelper'},
+               {'pm': 'V2.pm', 'helper': 'V2.helper', 'shelper': 'mix1:shelper'}]
 VIEW_PRIVATE = ['_priv', '__dd__', 'data', 'names', '_hidden', '_mixpriv', 'helper_data', '__init__', '__methods__', '__class__', '__dict__', '__doc__']
 
 
@@ -132,7 +138,7 @@ def run_history(ctx, ops, is_async):
     cls = (json.dumps(ops), is_async)
     dk = 'async' if is_async else 'sync'
     ctx.hit('dispatcher:' + dk)
-    fns = [make_fn(f'fn{i}', FN_NAMES[i], is_async and i != 1) for i in range(3)]
+    fns = [make_fn(f'fn{i}', FN_NAMES[i], is_async and i != 1) for i in range(len(FN_NAMES))]
     views = make_views(is_async)
     regs = [pjrpc.server.MethodRegistry(prefix=p) for p in PREFIXES]
     disp = (pjrpc.server.AsyncDispatcher if is_async else pjrpc.server.Dispatcher)()
@@ -192,6 +198,8 @@ def run_history(ctx, ops, is_async):
                 if v == 0:
                     ctx.hit('view:static-member')
                     ctx.hit('view:inherited-member')
+                if v == 2:
+                    ctx.hit('view:derived-view')
             elif name == 'merge':
                 _, t, s = op
                 regs[t].merge(regs[s])
@@ -265,6 +273,8 @@ def run_history(ctx, ops, is_async):
 
     for n in sorted(valid):
         ctx.hit('probe:registered-name')
+        if n.rsplit('.', 1)[-1].startswith('_'):
+            ctx.hit('probe:underscore-name')
         try:
             doc = ask(n)
         except Exception as e:
@@ -297,7 +307,11 @@ def alphabet(reduced):
         for f in ((0, 2) if reduced else (0, 1, 2)):
             ops.append(['add', r, f])
         ops.append(['add_named', r, 1, 'x.y'])
+        ops.append(['add', r, 3])
+        ops.append(['view', r, 2, 'v'])
         if not reduced:
+            ops.append(['add_named', r, 1, '_x'])
+            ops.append(['add_named', r, 0, 'ns._y'])
             ops.append(['add_named', r, 0, 'alpha'])
             ops.append(['add_named', r, 2, 'a'])
             ops.append(['add_methods_fn', r, 1])
@@ -313,9 +327,9 @@ def alphabet(reduced):
         for s in R:
             if t != s:
                 ops.append(['merge', t, s])
-    ops += [['dadd', 0, None], ['dadd', 2, 'beta'], ['dview', 0]]
+    ops += [['dadd', 0, None], ['dadd', 2, 'beta'], ['dview', 0], ['dadd', 3, None]]
     if not reduced:
-        ops += [['dadd', 1, 'x.y'], ['dview', 1]]
+        ops += [['dadd', 1, 'x.y'], ['dview', 1], ['dview', 2], ['dadd', 1, '_z']]
     return ops
 
 
